@@ -43,10 +43,16 @@ ENTRY_POINTS = [
     # everything else the processors do with a response (writer sessions, result rules, scraping glue, link queueing)
     'wpull.processor.web:WebProcessorSession.process',
     'wpull.processor.ftp:FTPProcessorSession.process',
+    # listeners of the protocol sessions' events run inside the session: the progress indicator (attached by default) reads the
+    # response header it is handed
+    'wpull.pipeline.progress:ProtocolProgress.update_from_begin_request',
+    'wpull.pipeline.progress:ProtocolProgress.update_from_begin_response',
+    'wpull.pipeline.progress:ProtocolProgress.update_from_end_response',
+    'wpull.pipeline.progress:ProtocolProgress.update_with_data',
 ]
 
 PROCESSOR_SIDE = ('wpull.writer', 'wpull.processor.web', 'wpull.processor.ftp', 'wpull.processor.rule', 'wpull.processor.base',
-                  'wpull.cookiewrapper', 'wpull.cookie')
+                  'wpull.cookiewrapper', 'wpull.cookie', 'wpull.pipeline.progress')
 
 # results that are chosen from a local table or measured on the local file system: the server selects, it does not supply them
 CLEAN_CALLS = {'mimetypes.guess_type', 'os.path.getsize', 'os.path.getmtime', 'os.path.exists', 'os.path.isfile', 'os.path.isdir',
